@@ -344,11 +344,58 @@ fn c10(args: &Args) -> Report {
             r
         }));
     }
+    {
+        // length ladder: every length up to the bound, NUL-free / one NUL at every position / trailing NUL,
+        // through every constructor, unary op and as either operand of the joins (word-at-a-time scans and
+        // size thresholds are straddled at every length)
+        let lmax = if args.thorough { 1100 } else { 260 };
+        items.push(isolated("length-ladder", move || {
+            let mut r = Report::new();
+            let pat = b"a/\xffb.a//c";
+            let short: Vec<Vec<u8>> = vec![b"\0".to_vec(), b"a\0".to_vec(), b"/\0".to_vec(), b"/a\0".to_vec(), b"a/\0".to_vec()];
+            // lengths inside the exhaustive window are skipped: every case is generated once overall
+            for len in 8..=lmax {
+                let base: Vec<u8> = (0..len).map(|i| pat[i % pat.len()]).collect();
+                let mut inputs: Vec<Vec<u8>> = vec![base.clone()];
+                let mut t = base.clone();
+                t.push(0);
+                inputs.push(t.clone());
+                let nul_positions: Vec<usize> = if len <= 70 { (0..len).collect() } else { vec![0, 1, 7, 8, 15, 16, len / 2, len - 17, len - 16, len - 9, len - 8, len - 2, len - 1] };
+                for p in nul_positions {
+                    let mut v = base.clone();
+                    v[p] = 0;
+                    inputs.push(v.clone());
+                    v.push(0);
+                    inputs.push(v);
+                }
+                for s in &inputs {
+                    for op in UNARY10 {
+                        c10_unary(op, s, &mut r);
+                    }
+                    if let Ok(st) = std::str::from_utf8(s) {
+                        for v in 0..3 {
+                            c10_format(st, v, &mut r);
+                        }
+                        c10_checked(st, &mut r);
+                    }
+                }
+                // the valid value of this length through the unary ops and the joins
+                c10_on_valid(&t, &mut r);
+                for o in &short {
+                    c10_pair(&t, o, &mut r);
+                    c10_pair(o, &t, &mut r);
+                }
+                c10_pair(&t, &t, &mut r);
+            }
+            r
+        }));
+    }
     let mut r = run_isolated(items, &args.out, "C10");
     r.rule = format!(
         "every byte string of length <= {l1} over {{NUL,'/','a',0xFF}} into every constructor/conversion ({} ops + 3 from_format shapes + from_str_checked), \
          every valid value of content length <= {} into parent_path/path_file_name/From/from_ptr/as_ref, every pair of valid values of content length <= {l2} \
-         into path_join/path_join_fmt; each (operation, operand tuple) is generated exactly once; a case is non-trivial when the operation applies to the operand \
+         into path_join/path_join_fmt; a length ladder (every length up to 260, thorough 1100: NUL-free, trailing NUL, one NUL at each position [a fixed position set above 70]) \
+         through every constructor, unary operation and as either join operand; each (operation, operand tuple) is generated exactly once; a case is non-trivial when the operation applies to the operand \
          (str-typed operations only see UTF-8 operands)",
         UNARY10.len(),
         l2.max(l1 - 1)
@@ -493,7 +540,8 @@ fn literal_sweep(prop: &str, lefts: &[Vec<u8>], r: &mut Report) {
 fn c11_ladder(max: usize, r: &mut Report) {
     let mut pl = Placed { a: GuardArena::new(2), b: GuardArena::new(2) };
     let pat = b"ab.a/b.ba/";
-    for len in 0..=max {
+    // lengths inside the exhaustive windows (pairs <= 5, singles <= 9) are skipped: each case is generated once overall
+    for len in 10..=max {
         let a: Vec<u8> = (0..len).map(|i| pat[i % pat.len()]).collect();
         let mut variants: Vec<Vec<u8>> = vec![a.clone(), Vec::new()];
         for pos in [0usize, len / 2, len.saturating_sub(1)] {
